@@ -78,6 +78,17 @@ def funnel_case(a):
         judge("gensquashfs link target", r, lambda: linked(img, b"l", b"d/f"))
         r = gen(b"file " + q + b" 0644 0 0 d/f\n", img)
         judge("gensquashfs entry path", r, lambda: None if (packcheck.decode(img)[0] is not None and b"d/f" in packcheck.decode(img)[0].tree) else "entry not at d/f")
+        # 1b. the path field of every other pack-file line type, the glob line included (it hands the path to another routine than the others)
+        def tree_is_exactly(want):
+            im_, err_ = packcheck.decode(img)
+            if im_ is None:
+                return "undecodable: %s" % err_
+            return None if sorted(im_.tree) == sorted(want) else "tree is %r, expected %r" % (sorted(im_.tree)[:6], sorted(want))
+        for kind_, rest_ in (("dir", b"0755 0 0"), ("slink", b"0777 0 0 target"), ("nod", b"0600 0 0 c 1 2"), ("pipe", b"0600 0 0"), ("sock", b"0600 0 0")):
+            r = gen(kind_.encode() + b" " + q + b" " + rest_ + b"\n", img)
+            judge("gensquashfs %s path" % kind_, r, lambda: tree_is_exactly([b"", b"d", b"d/f"]))
+        r = gen(b"glob " + q + b" * * * d\n", img)
+        judge("gensquashfs glob path", r, lambda: tree_is_exactly([b"", b"d", b"d/f", b"d/f/f"]))
         # 2. tar: hard link target, member name
         TE = tarcases.E
         for what, ents in (("tar2sqfs link target", [TE(b"d", "dir"), TE(b"d/f", "file", content=b"x"), TE(b"l", "link", target=sp)]),
@@ -233,7 +244,7 @@ def main():
                 cr.violation("C18|funnel|rdsquashfs unpack path|%s" % ("attributes-not-applied" if ru.rc == 0 else "fails"),
                              "rdsquashfs -u / -p R %s on an image with xattrs: rc=%d %s" % (" ".join(uopts), ru.rc, ru.err.decode("latin1")[-300:]),
                              files={"case.json": json.dumps({"unpack": uopts})})
-        cr.coverage["funnel_spellings"] = {"clean_equivalents": len(good), "with_dotdot": len(bad), "funnels": 10}
+        cr.coverage["funnel_spellings"] = {"clean_equivalents": len(good), "with_dotdot": len(bad), "funnels": 16}
         tot["evaluations"] += n_funnel
         cr.coverage.update(evaluations=tot["evaluations"],
                            distinct_nontrivial=tot["refused"] + tot["rewritten"],
